@@ -44,6 +44,12 @@ def main():
         j = int(args[i + 1])
         del args[i:i + 2]
     props = sorted(p.stem for p in (VERIF / "mitmlint" / "props").glob("C*.py"))
+    only = None
+    if "--props" in args:  # re-evaluate only these checks and merge their verdicts into the recorded RESULTS.json
+        i = args.index("--props")
+        only = args[i + 1].split(",")
+        del args[i:i + 2]
+        props = [p for p in props if p in only]
     seeds = sorted(d for d in (VERIF / DIRNAME).iterdir() if (d / "patch.diff").exists() and (not args or d.name in args))
     results = {}
     with ThreadPoolExecutor(j) as ex:
@@ -61,7 +67,18 @@ def main():
                         status += "\n      " + l
             print(f"{sd.name}: {status}", flush=True)
     if not args:
-        (VERIF / DIRNAME / "RESULTS.json").write_text(json.dumps(results, indent=1, sort_keys=True) + "\n")
+        out = VERIF / DIRNAME / "RESULTS.json"
+        if only is not None and out.exists():
+            old = json.loads(out.read_text())
+            for k, res in results.items():
+                if "apply" in res:
+                    old[k] = res
+                    continue
+                cur = {p: v for p, v in old.get(k, {}).items() if p not in only and p != "apply"}
+                cur.update(res)
+                old[k] = cur
+            results = old
+        out.write_text(json.dumps(results, indent=1, sort_keys=True) + "\n")
 
 
 if __name__ == "__main__":
